@@ -147,7 +147,7 @@ class Rewriter:
             body = body[:rs] + new + body[q + 1:]
 
 
-    def r13_heap(self, body, heapcalls):
+    def r13_heap(self, body, heapcalls, snapshot=False):
         """heap-passing form of the pointer layer (template l1).  The node memory that raw pointers address becomes an
         explicit object `heap`:
           R14  `let [mut] x = P.get_mut();`  =>  binding removed, every later `x` replaced by `P.get_mut()`
@@ -170,7 +170,7 @@ class Rewriter:
             self.note('R15', mt.group(0))
             return 'heap.alloc(%s)' % mt.group(1)
         body = re.sub(r'Box::into_raw\(\s*Box::new\(\s*(\w+)\s*\)\s*\)', _alloc, body)
-        for a, b in (('get_mut', 'hget_mut'), ('get_extended', 'hget_extended'), ('get', 'hget')):
+        for a, b in (('get_mut', 'hget_mut'), ('get_extended', 'hget_extended'), ('get', 'hget_snap' if snapshot else 'hget')):
             while True:
                 m = mask(body)
                 mt = re.search(r'\.\s*%s\s*\(\s*\)' % a, m)
@@ -599,7 +599,7 @@ def expand(template_path, repo_src_dir, canary=False):
                 rw.note('R11', body[rs:mt.end()])
                 body = body[:rs] + 'self.at(' + body[rs:mt.start()].rstrip() + ')' + body[mt.end():]
         if kv.get('heap'):
-            body = rw.r13_heap(body, [x for x in kv.get('heapcalls', '').split(',') if x] + [x for x in default_heapcalls if x not in kv.get('heapcalls', '').split(',')])
+            body = rw.r13_heap(body, [x for x in kv.get('heapcalls', '').split(',') if x] + [x for x in default_heapcalls if x not in kv.get('heapcalls', '').split(',')], snapshot=bool(kv.get('get_snapshot')))
             params = params.rstrip()
             if re.match(r'\(\s*mut\s+self\b', params):
                 # R16: `mut self` was needed only for get_mut's `&mut self` receiver; hget_mut takes `&self`
